@@ -120,6 +120,11 @@ def universes():
     t["del_by_delegator"] = make_event("A", 5, 70, [["e", t["delegated"]["id"]]], "")
     t["same_ts_1"] = make_event("A", 1, 50, [["e", "x"]], "same ts 1")
     t["same_ts_2"] = make_event("B", 1, 50, [["e", "x"]], "same ts 2")
+    # created_at 0 ("accepted or refused": the event library re-dates a falsy created_at; whatever is stored must be keyed coherently
+    # and must go away completely when deleted or superseded)
+    t["epoch"] = make_event("A", 1, 0, [["t", "z"]], "created at the epoch")
+    t["epoch_repl"] = make_event("A", 10000, 0, [["t", "z"]], "replaceable, created at the epoch")
+    t["del_epoch"] = make_event("A", 5, 80, [["e", t["epoch"]["id"]]], "")
     U["U10"] = t
     return U
 
